@@ -25,10 +25,80 @@ def monitor(spec, study, params, steps, dag, hash_ws, root):
     return SS.expansion_monitor(params, steps, dag, hash_ws)
 
 
+PGEN = '''from maestrowf.datastructures.core import ParameterGenerator
+
+TABLE = %r
+
+
+def get_custom_generator(env, **kwargs):
+    """the table of the specification, built by a custom generator; the --pargs reach it as strings"""
+    assert kwargs.get("TAG") == "a b" and kwargs.get("N") == "3", kwargs
+    assert "OUTPUT_PATH" in kwargs and "SPECROOT" in kwargs, kwargs
+    p_gen = ParameterGenerator()
+    for key, values, label in TABLE:
+        p_gen.add_parameter(key, values, label)
+    return p_gen
+'''
+
+
+def pgen_cli_case(ctx, k):
+    """the same parameter table once in the specification and once handed over by a custom generator
+    file (`maestro run --pgen FILE --pargs ...`, the real command, dry): the two expansions must
+    produce the same directories and scripts"""
+    import copy
+    import os
+    import c17
+    from corr import Case
+    rng = ctx.rng
+    base = os.path.join(ctx.scratch, "pg", "p%d" % k)
+    spec = SS.gen_spec(rng, base + "-a", adversarial=False)
+    params = spec.get("global.parameters")
+    if not params:
+        return None
+    spec_b = copy.deepcopy(spec)
+    spec_b.pop("global.parameters")
+    os.makedirs(base, exist_ok=True)
+    pgen_path = os.path.join(base, "pgen.py")
+    with open(pgen_path, "w") as f:
+        f.write(PGEN % [(key, p["values"], p["label"]) for key, p in params.items()])
+    opts = {"hash_ws": rng.random() < 0.3, "rlimit": 1, "throttle": 0, "use_tmp": False}
+    import scripted as S
+    S.uninstall()
+    try:
+        c17._run_cli(spec, base + "-a", {"type": "local"}, opts, True)
+        c17._run_cli(spec_b, base + "-b", {"type": "local"}, opts, True,
+                     extra=["--pgen", pgen_path, "--pargs", "TAG: a b", "--pargs", "N:3"])
+    except Exception as e:  # noqa  (staging problems of the generated study are other properties')
+        return None
+    da, fa = c17._tree(base + "-a")
+    db, fb = c17._tree(base + "-b")
+    mon = []
+    if da != db:
+        mon.append(("pgen-equivalent", "directories differ: only with the table in the specification %s, only "
+                    "with the generator %s" % (sorted(da - db)[:3], sorted(db - da)[:3])))
+    elif fa != fb:
+        diff = sorted(p_ for p_ in set(fa) | set(fb) if fa.get(p_) != fb.get(p_))
+        mon.append(("pgen-equivalent", "scripts differ between the two ways of supplying the table: %s" % diff[:3]))
+    return Case({"kind": "pgen-cli", "spec": spec, "hash_ws": opts["hash_ws"]}, [], [], mon, True)
+
+
 def run(ctx, escalated=False):
     quick = ctx.tier == "quick" and not escalated
     n = 700 if quick else 20000
     cases = []
+    for k in range(30 if quick else 600):
+        c = pgen_cli_case(ctx, k)
+        if c is not None:
+            c.judged = False
+            c.dag = None
+            c.impl_out = ["pgen-cli"]
+            c.data.setdefault("params", [])
+            cases.append(c)
+            ctx.count("pgen-cli")
+        if k % 20 == 19:
+            import shutil
+            import os
+            shutil.rmtree(os.path.join(ctx.scratch, "pg"), ignore_errors=True)
     for k in range(n):
         c = expprop.one_case(ctx, k, adversarial=False, monitor=monitor)
         if c is not None:
